@@ -151,13 +151,69 @@ theorem int_never_narrower (S : Schema) (e : TExpr) (h : WF T0 S e = true) (hi :
 
 /-- a column qualified with the table takes the type the schema declares (UNKNOWN if the schema has no such column) -/
 theorem column_takes_schema_type (S : Schema) (n : String) :
-    annot T0 S (.col .this n) = (S.lookup n).getD .unknown := rfl
+    annot T0 S (.col .this n) = (S.table.lookup n).getD .unknown := rfl
 
 /-- annotate_types does not qualify: an unqualified column (or one qualified with something that is not a source) stays
     UNKNOWN although DuckDB resolves it — such references are outside `WF` -/
 theorem unqualified_column_witness :
-    annot T0 [("i", .int)] (.col .none "i") = .unknown ∧ eng T0 [("i", .int)] (.col .none "i") = .integer ∧
-    WF T0 [("i", .int)] (.col .none "i") = false ∧ WF T0 [("i", .int)] (.col .this "i") = true := by decide +kernel
+    annot T0 { table := [("i", .int)] } (.col .none "i") = .unknown ∧ eng T0 { table := [("i", .int)] } (.col .none "i") = .integer ∧
+    WF T0 { table := [("i", .int)] } (.col .none "i") = false ∧ WF T0 { table := [("i", .int)] } (.col .this "i") = true := by decide +kernel
+
+/-- the one-row table of the harness -/
+def S0 : Schema :=
+  { table := [("bo", .boolean), ("ti", .tinyint), ("si", .smallint), ("i", .int), ("bi", .bigint), ("db", .double),
+              ("de", .decimalP), ("v", .text), ("da", .date), ("ts", .timestampntz)] }
+
+def c (n : String) : TExpr := .col .this n
+
+/-! ### scopes: columns that reach an expression through derived tables / CTEs -/
+
+/-- a column of a derived table takes the type annotated on the child scope's projection of that name, and the engine's
+    column type is the projection's (a projected string literal is a VARCHAR column) -/
+theorem derived_column_takes_projection_type (S : Schema) (a n : String) (e : TExpr) (more : List (String × TExpr))
+    (others : List (String × List (String × TExpr))) :
+    annot T0 (deriveScope T0 S ((a, (n, e) :: more) :: others)) (.col (.derived a) n) = annot T0 S e ∧
+    eng T0 (deriveScope T0 S ((a, (n, e) :: more) :: others)) (.col (.derived a) n) = resolveCol (eng T0 S e) := by
+  simp [annot, sm, eng, annotCol, deriveScope, selectsOf, List.lookup, Sm.ty]
+
+/-- `class_agrees` instantiated at a parent scope: expressions over the columns of derived tables whose projections were
+    annotated in the child scope (`deriveScope` can be iterated for deeper nesting) -/
+theorem class_agrees_through_derived (S : Schema) (ds : List (String × List (String × TExpr))) (e : TExpr)
+    (h : WF T0 (deriveScope T0 S ds) e = true) :
+    eclassOf (eng T0 (deriveScope T0 S ds) e) = some (classOf (annot T0 (deriveScope T0 S ds) e)) :=
+  class_agrees _ e h
+
+/-- non-vacuity, two levels: `SELECT s2.c + 1, COALESCE(s2.d, 1.5) FROM (SELECT s1.c AS c, s1.c * t.db AS d FROM
+    (SELECT t.ti + t.bi AS c FROM t) AS s1) AS s2` -/
+def lvl1 : Schema := deriveScope T0 S0 [("s1", [("c", .bin .add (.col .this "ti") (.col .this "bi"))])]
+def lvl2 : Schema :=
+  deriveScope T0 lvl1 [("s2", [("c", .col (.derived "s1") "c"), ("d", .bin .mul (.col (.derived "s1") "c") (.col .this "db"))])]
+example :
+    WF T0 lvl2 (.bin .add (.col (.derived "s2") "c") .intLit) = true ∧
+    annot T0 lvl2 (.bin .add (.col (.derived "s2") "c") .intLit) = .bigint ∧
+    WF T0 lvl2 (.bin .coalesce (.col (.derived "s2") "d") .decLit) = true ∧
+    annot T0 lvl2 (.bin .coalesce (.col (.derived "s2") "d") .decLit) = .double ∧
+    eng T0 lvl2 (.bin .coalesce (.col (.derived "s2") "d") .decLit) = .double := by decide +kernel
+
+/-- the cache inventory read from the source: only known caches, and the scope-dependent one has the scope in its key -/
+theorem cache_keys_ok : cachesOk SqlglotModel.Generated.C16.cacheInventory = true := by decide +kernel
+
+/-- **the per-call cache is transparent**: with the key the source uses today, one `annotate_types` call over any number
+    of scopes resolves every `alias.column` exactly as that scope's own sources say, however aliases and names recur -/
+theorem scope_cache_transparent (qs : List (Schema × List (String × String))) :
+    runScopes SqlglotModel.Generated.C16.scopeCacheKeyHasScope [] 0 qs = uncachedScopes qs := by
+  have hk : SqlglotModel.Generated.C16.scopeCacheKeyHasScope = true := by decide +kernel
+  rw [hk]
+  exact runScopes_transparent qs [] 0 (by intro k v hm; cases hm)
+
+/-- the seeded defect: with the source name alone as the key, the second scope's `s.c` gets the first scope's type
+    (two sibling scopes, both with a derived table `s` projecting `c`: INT in one, DOUBLE in the other) -/
+theorem name_only_cache_key_witness :
+    let sInt : Schema := { table := [], derived := [("s", [("c", (.int, .integer))])] }
+    let sDbl : Schema := { table := [], derived := [("s", [("c", (.double, .double))])] }
+    runScopes false [] 0 [(sInt, [("s", "c")]), (sDbl, [("s", "c")])] = [[.int], [.int]] ∧
+    uncachedScopes [(sInt, [("s", "c")]), (sDbl, [("s", "c")])] = [[.int], [.double]] ∧
+    runScopes true [] 0 [(sInt, [("s", "c")]), (sDbl, [("s", "c")])] = [[.int], [.double]] := by decide +kernel
 
 /-! ### wrappers keep the aggregate's type -/
 
@@ -180,13 +236,6 @@ theorem wrapper_keeps_type (S : Schema) (k : UnK) (a : TExpr) :
     exact byArgs_single _
 
 /-! ### non-vacuity -/
-
-/-- the one-row table of the harness -/
-def S0 : Schema :=
-  [("bo", .boolean), ("ti", .tinyint), ("si", .smallint), ("i", .int), ("bi", .bigint), ("db", .double), ("de", .decimalP),
-   ("v", .text), ("da", .date), ("ts", .timestampntz)]
-
-def c (n : String) : TExpr := .col .this n
 
 def sample1 : TExpr :=
   .tern .caseWhen (.bin .lt (c "da") (.strLit .isoDate))
